@@ -261,7 +261,8 @@ def typhon_dir_period(template):
         return dt.timedelta(days=1)
     if "month" in names:
         return dt.timedelta(days=31)
-    if names & {"year", "year2"}:
+    if names & {"year", "year2"} or template["dirs"]:
+        # (directories without temporal placeholder count as a year)
         return dt.timedelta(days=366)
     return None
 
